@@ -125,6 +125,9 @@ InitG(st, g, T) ==
   IF Guarded(g) /\ g \in st.tp[T] THEN [st |-> st, err |-> FALSE]
   ELSE Steps([st EXCEPT !.tp[T] = IF Guarded(g) THEN @ \cup {g} ELSE @], T, InitSteps(g))
 
+\* X.init(table, reload=True): the guard is ignored and the loader body runs again
+Reload(st, g, T) == InitG([st EXCEPT !.tp[T] = @ \ {g}], g, T)
+
 \* heap object served by an instance attribute / class default
 \* Co has a single row (Co-59) in the neutron table: the loader hands the isotope's record to the element,
 \* so within one table eD and iD serve the same Neutron object.
@@ -192,6 +195,7 @@ Apply(st, ev) ==
   CASE ev.op = "read"   -> Read(st, ev.T, ev.a, ev.p).st
     [] ev.op = "probe"  -> Read(st, ev.T, ev.a, ev.p).st
     [] ev.op = "init"   -> InitG(st, ev.g, ev.T).st
+    [] ev.op = "reload" -> Reload(st, ev.g, ev.T).st
     [] ev.op = "create" -> Create(st, ev.T)
     [] ev.op = "assign" -> Assign(st, ev.T, ev.a, ev.p)
     [] ev.op = "mutate" -> Mutate(st, ev.T, ev.a, ev.p)
@@ -204,6 +208,7 @@ Outcome(st, ev) ==
   CASE ev.op = "read"   -> Read(st, ev.T, ev.a, ev.p).val
     [] ev.op = "probe"  -> (IF Read(st, ev.T, ev.a, ev.p).val \in {"E"} THEN "F" ELSE "T")
     [] ev.op = "init"   -> (IF InitG(st, ev.g, ev.T).err THEN "X" ELSE "ok")
+    [] ev.op = "reload" -> (IF Reload(st, ev.g, ev.T).err THEN "X" ELSE "ok")
     [] OTHER -> "ok"
 
 ActiveProps == UNION {ReadProps(g) : g \in Groups}
@@ -225,6 +230,7 @@ Events(st) ==
   \cup {[op |-> "calc", c |-> c] : c \in {x \in Calcs : CalcOK(x)}}
   \cup {[op |-> "import", m |-> m] : m \in {x \in Imports : ImportRelevant(x)}}
   \cup {[op |-> "init", g |-> g, T |-> T] : g \in Groups, T \in Live(st)}
+  \cup {[op |-> "reload", g |-> g, T |-> "pub"] : g \in Groups}          \* the documented way to restore the public data
   \cup {[op |-> "create", T |-> T] : T \in PrivTables \ st.tabs}
   \cup (IF Cardinality(st.asg) >= MaxAsg THEN {} ELSE
         {[op |-> "assign", T |-> T, a |-> a, p |-> p] : T \in st.tabs, a \in {"eD", "eN", "iD"}, p \in AssignProps})
